@@ -111,6 +111,9 @@ fn strategies(cfg: &Cfg) -> Vec<Strategy> {
     }
     if l >= 1 {
         v.push(Strategy::OmitLastLayer);
+        for e in [0u8, 1, 62, 63] {
+            v.push(Strategy::ForgedFirstLayer(e));
+        }
     }
     if l >= 2 {
         v.push(Strategy::DuplicateLayer);
@@ -225,7 +228,14 @@ where
             let mut n_pos = 0u64;
             for positions in position_sets(cfg.n, thorough) {
                 // the layer-0 values the prover claims at the queried positions
-                let claimed: Vec<El> = positions.iter().map(|p| committed.layers.first().map(|l| l.evals[*p]).unwrap_or(f[*p])).collect();
+                let mut claimed: Vec<El> = positions.iter().map(|p| committed.layers.first().map(|l| l.evals[*p]).unwrap_or(f[*p])).collect();
+                if let Strategy::ForgedFirstLayer(_) = strat {
+                    // the forger claims other values at the queried positions than the function it committed to
+                    let ctx = E::ctx();
+                    for c in claimed.iter_mut() {
+                        *c = ctx.add(c, &kit::refmath::Ctx::ONE);
+                    }
+                }
                 let Some(said) = respond(&committed, &positions) else { continue };
                 n_pos += 1;
                 let want = ref_verify(&committed, &said, &positions, &claimed);
@@ -272,6 +282,7 @@ fn strat_class(s: &Strategy) -> &'static str {
         Strategy::OmitLastLayer => "omitted layer",
         Strategy::DuplicateLayer => "duplicated layer",
         Strategy::SwapLayers => "swapped layers",
+        Strategy::ForgedFirstLayer(_) => "first-layer rows forged after seeing the queries (declared partition counts 1, 2, 2^62, 2^63)",
     }
 }
 
@@ -280,7 +291,7 @@ fn main() {
     match args.prop.clone().as_str() {
         "C05" => {
             let run = Run::new(args, "exploration");
-            run.rule("stand-alone FRI: configurations (domain 16,32 quick / 16..128 thorough) x folding {2,4,8,16} x blowup {2,4,8} x remainder degree {0,1,3,7} with a well-formed schedule; functions: every monomial above the degree bound, the bound itself, a low-degree polynomial corrupted at every single point / on a lattice of pairs / on half the domain, a seeded random function; adversary strategies: honest, full remainder, remainder interpolated after seeing the queries, tampered opened value per layer, tampered committed value per layer, wrong folding challenge per layer, omitted / duplicated / swapped layers; positions: ALL position lists of size 1 and 2 (all subsets; a third of the pairs for n = 128) plus lists with repeats; functions and pairs are complete up to n = 32 (quick) / n = 64 (thorough, pair lattice of corruptions coarser above 32) and thinned as stated for the largest domain; largest domain per (field, hasher) instance: 32/16/16 quick, 128/32/64/16/16 thorough; for every (function, strategy, positions) the real FriVerifier must answer Ok exactly when the reference verifier written from the protocol description accepts; a case = (configuration, function, strategy), non-trivial position sets counted individually; the honest strategy's proof is compared byte for byte with the real FriProver's (trace conformance of the prover model)");
+            run.rule("stand-alone FRI: configurations (domain 16,32 quick / 16..128 thorough) x folding {2,4,8,16} x blowup {2,4,8} x remainder degree {0,1,3,7} with a well-formed schedule; functions: every monomial above the degree bound, the bound itself, a low-degree polynomial corrupted at every single point / on a lattice of pairs / on half the domain, a seeded random function; adversary strategies: honest, full remainder, remainder interpolated after seeing the queries, tampered opened value per layer, first-layer rows forged after seeing the queries (other values at the queried positions, an un-queried member of each row adjusted to keep the fold) under declared partition counts {1,2,2^62,2^63}, tampered committed value per layer, wrong folding challenge per layer, omitted / duplicated / swapped layers; positions: ALL position lists of size 1 and 2 (all subsets; a third of the pairs for n = 128) plus lists with repeats; functions and pairs are complete up to n = 32 (quick) / n = 64 (thorough, pair lattice of corruptions coarser above 32) and thinned as stated for the largest domain; largest domain per (field, hasher) instance: 32/16/16 quick, 128/32/64/16/16 thorough; for every (function, strategy, positions) the real FriVerifier must answer Ok exactly when the reference verifier written from the protocol description accepts; a case = (configuration, function, strategy), non-trivial position sets counted individually; the honest strategy's proof is compared byte for byte with the real FriProver's (trace conformance of the prover model)");
             run.assume("the public coin and the hashers are correct (C19, C11); Merkle openings are sound (C10); the reference verifier sees the adversary's committed layers, so 'authentic opening' is decided by equality with the committed rows");
             let mut subs = vec![];
             let quick = !run.tier().is_thorough();
